@@ -91,6 +91,17 @@ def generate(rng, tier):
             cases.append("C06 filep%s %s 0 %s" % (peek, hx(body), rt))
         elif kind in ("stream", "pipe"):
             cases.append("C06 %s %s %s" % (kind, hx(body), rt))
+        if kind in ("buf", "fileb", "filer", "gen") and rng.random() < 0.15:
+            # the status is switched to 204/304 after the response was built (e.g. by an after hook)
+            code = rng.choice([204, 304])
+            if kind == "buf":
+                cases.append("C06 status %d buf %s none" % (code, hx(body)))
+            elif kind in ("fileb", "filer"):
+                cases.append("C06 status %d %s %s 0 none" % (code, kind, hx(body)))
+            else:
+                cases.append("C06 status %d gen %d %s none" % (code, L, c07.chunk_tok(body, [L])))
+        if kind in ("buf", "fileb", "filer", "filep", "stream", "pipe"):
+            pass
         else:
             cuts = sorted(rng.randrange(0, L + 1) for _ in range(rng.randrange(0, 4)))
             parts, prev = [], 0
@@ -110,6 +121,8 @@ def unpeek(case):
 
 
 def to_model(case):
+    if case.split()[1] == "status":
+        return []            # oracle only: no body bytes for 204/304 whatever the response was built from
     case = unpeek(case)[0]
     t = case.split()
     if t[1] == "writes":
@@ -121,6 +134,11 @@ def to_model(case):
 
 def build(case):
     from poorwsgi.response import Response, FileObjResponse
+    t0 = case.split()
+    if t0[1] == "status":
+        res, rep, ranges = build("C06 " + " ".join(t0[3:]))
+        res.status_code = int(t0[2])
+        return res, b"", []
     case, peek = unpeek(case)
     if peek:
         res, rep, ranges = c07.build(case)
@@ -158,6 +176,8 @@ def observe_full(case):
 
 
 def observe(case):
+    if case.split()[1] == "status":
+        return "-"
     try:
         calls, out, rep, ranges, res = observe_full(case)
     except Exception as err:
